@@ -440,8 +440,9 @@ def check_property(pid, tier, seed, replay=None):
             return
         reported_keys.add(key)
         if key and key in known_keys and kind in ("O", "BAD"):
-            msg = f"KNOWN-FINDING: property={pid} key={key} {known_keys[key]['rest']}"
-            log(msg); known_printed.append(key)
+            if key not in known_printed:
+                log(f"KNOWN-FINDING: property={pid} {known_keys[key]['rest']}")
+                known_printed.append(key)
             return
         header = [f"property {pid}; failure kind {kind} ({'oracle false on the implementation output' if kind in ('O','BAD') else 'model/implementation disagreement'}); shape key {key}",
                   "re-run: ./check %s --replay <this file>" % pid]
@@ -449,7 +450,19 @@ def check_property(pid, tier, seed, replay=None):
         path = write_replay(pid, seed, f"{kind}{idx}", header, small)
         violations.append((path, suffix))
 
-    for idx, kind, at in o_breaks[:5]:
+    # failures whose (unshrunk) shape is a listed known finding are named once and not shrunk again;
+    # everything else is reported (at most 5 distinct shapes per run)
+    pending = []
+    for idx, kind, at in o_breaks:
+        pre = prop.shape_key(cases[idx], per_case[idx]) if hasattr(prop, "shape_key") else None
+        if pre and pre in known_keys and kind in ("O", "BAD"):
+            if pre not in known_printed:
+                log(f"KNOWN-FINDING: property={pid} {known_keys[pre]['rest']}")
+                known_printed.append(pre)
+            continue
+        pending.append((idx, kind, at))
+    for idx, kind, at in pending:
+        if len(violations) >= 5: break
         report(idx, kind)
     if not violations and (k_breaks or proof_broken):
         # a correspondence or a proof obligation broke but no oracle failure seen yet: search (DESIGN 4.2)
